@@ -176,6 +176,15 @@ def fixAngleQuadrant(angle, check):
     return angle
 
 
+def wrapAngleHalfOpen(angle: float) -> float:
+    r"""Force angle into :math:`[0, 2\pi)`, upper bound excluded.
+
+    :func:`.wrapAngle2Pi` rounds a tiny negative angle up to exactly :math:`2\pi`.
+    """
+    angle = wrapAngle2Pi(angle)
+    return angle if angle < const.TWOPI else 0.0
+
+
 def check_ecc(func: Callable[..., float]) -> Callable[..., float]:
     r"""Checks ``ecc`` for functions that convert between anomaly types to account for circulars.
 
@@ -214,7 +223,7 @@ def wrap_anomaly(func: Callable[..., float]) -> Callable[..., float]:
 
     @wraps(func)
     def wrapper_wrap_angle_2pi(*args, **kwargs):
-        return wrapAngle2Pi(func(*args, **kwargs))
+        return wrapAngleHalfOpen(func(*args, **kwargs))
 
     return wrapper_wrap_angle_2pi
 
